@@ -26,7 +26,7 @@ def _build():
         if not k.startswith('_'):
             setattr(t, k, v)
     t.float = tensor.float32; t.int = tensor.int32; t.bool = tensor.bool_
-    t.abs = tensor.abs_; t.sum = tensor.sum_; t.max = tensor.max_; t.min = tensor.min_
+    t.abs = tensor.abs_; t.sum = tensor.sum_; t.max = tensor.max_; t.min = tensor.min_; t.any = tensor.any_; t.all = tensor.all_
     t.__version__ = '0.0-symbolic'
     t.Tensor = tensor.Tensor; t.dtype = tensor.dtype; t.device = tensor.device
     t.FloatTensor = tensor.Tensor; t.DoubleTensor = tensor.Tensor
